@@ -282,7 +282,7 @@ class C04(Prop):
                   "label's threshold; AP/APH in [0,1] when weights are in [0,1] and #TP <= #GT; APH <= AP; AP = 1 for a perfect ranking, 0 without a TP; "
                   "mAP is the mean over defined APs and stays in [0,1]. The model (sort, cumulative TP/FP, precision/recall, interpolation, per-label "
                   "buckets, Map) is run inside Coq on the same result sets as the real Ap/Map (exhaustive small rankings + random scenes, all four "
-                  "matching modes, three label policies) and must reproduce tp_list, fp_list, AP, sort order, per-label APs and mAP/mAPH.")
+                  "matching modes, three label policies) and must reproduce tp_list, fp_list, AP, sort order, per-label APs and mAP/mAPH; the scene-level maps of the real manager (get_scene_result over 1-5 frames, frames without estimates included) are recomputed by the model from the pooled frame results.")
     level_note = ("Trusted: Coq kernel+vm_compute; the correspondence harness; binary64 rounding (scores compared within 1e-9); the per-pair facts "
                   "(matching value, label compatibility, heading weight) are read from the real objects -- their meaning is C06/C09. "
                   "'#TP <= #GT' is a hypothesis here (it follows from C01/C03 for the frame pipeline).")
@@ -293,7 +293,14 @@ class C04(Prop):
     not_proved = ["that #TP <= #GT in a frame (hypothesis here; C01/C03)", "binary64 rounding"]
 
     def correspondences(self):
-        return [ApCorr(), MapCorr()]
+        # third tie: MetricsScore.maps as the MANAGER produces them (add_frame_result, get_scene_result) -- the scene-level detection scores
+        # recomputed by the AP model from the pooled object results and the summed ground-truth counts (shared with C13)
+        from harness.props.C13 import PoolingCorr
+        return [ApCorr(), MapCorr(), PoolingCorr()]
+
+    def cleanup(self):
+        from harness.props import manager_common as MC
+        MC.cleanup_tmp(all_pids=True)
 
 
 READY = True
